@@ -46,10 +46,16 @@ def sha_files(paths, extra=""):
 def regen_constants():
     with CoqLock():
         r = sh([sys.executable, os.path.join(VERIF, "gen", "src_constants.py")])
+        r2 = sh([sys.executable, os.path.join(VERIF, "gen", "ast_translate.py")])
     try:
-        return json.loads(r.stdout.strip().splitlines()[-1])
+        st = json.loads(r.stdout.strip().splitlines()[-1])
     except Exception:
-        return {"error": r.stdout[-500:]}
+        st = {"error": r.stdout[-500:]}
+    try:
+        st["ast_translation"] = json.loads(r2.stdout.strip().splitlines()[-1])
+    except Exception:
+        st["ast_translation"] = {"error": r2.stdout[-300:]}
+    return st
 
 
 class CoqLock:
